@@ -120,17 +120,52 @@ func fileShapes(r *Rng) fileShape {
 
 func c16Format(c *Ctx, pool *Pool, i int, thorough bool) error {
 	seed := SubSeed(c.Seed, "c16fmt", i)
-	r := NewRng(seed)
 	in := FormatInput(seed)
+	out, err := c16FormatOne(c, pool, i, "", seed, in)
+	if err != nil || out == nil {
+		return err
+	}
+	// already-formatted text with surrounding whitespace: the formatter's own
+	// output (canonical, trimmed) decorated with a final newline, blank lines,
+	// CRLF or trailing blanks
+	r := NewRng(SubSeed(seed, "canon", 0))
+	if r.Chance(1, 3) {
+		var in2 []byte
+		switch r.Intn(6) {
+		case 0:
+			in2 = append(append([]byte{}, out...), '\n')
+		case 1:
+			in2 = append([]byte("\n\n"), out...)
+		case 2:
+			in2 = append(append([]byte{}, out...), '\r', '\n')
+		case 3:
+			in2 = append(append([]byte{}, out...), ' ', ' ', '\n', '\n')
+		case 4:
+			in2 = append([]byte{}, out...) // byte-identical to the canonical text
+		default:
+			in2 = append(append([]byte("\t\n"), out...), '\n')
+		}
+		if len(in2) > 0 {
+			c.ev.Fire("input_already_formatted", 1)
+			_, err = c16FormatOne(c, pool, i, "canon", SubSeed(seed, "canon", 1), in2)
+		}
+	}
+	return err
+}
+
+// c16FormatOne sends one input through format -d and format -f; it returns the
+// reference output when the input is valid.
+func c16FormatOne(c *Ctx, pool *Pool, i int, tag string, seed uint64, in []byte) ([]byte, error) {
+	r := NewRng(seed)
 	ref, err := formatRef(pool, in)
 	if err != nil {
-		return err
+		return nil, err
 	}
 	c.ev.AddRecord(&ref.Rec)
 	if ref.TimedOut || ref.Crashed != "" || ref.ParsePanic != "" {
 		// the reference itself panics or hangs: C11's domain, not an entry-point question
 		c.ev.Count("format_inputs_skipped_reference_panics", 1)
-		return nil
+		return nil, nil
 	}
 	c.ev.Count("format_inputs", 1)
 	if ref.FormatOK {
@@ -140,7 +175,7 @@ func c16Format(c *Ctx, pool *Pool, i int, thorough bool) error {
 		c.ev.Fire("invalid_input", 1)
 	}
 	c.ev.MarkDistinct(fmt.Sprintf("fmt|%x", sha8(in)))
-	if i < 2 {
+	if i < 2 && tag == "" {
 		c.ev.AddSample(map[string]any{"entry": "format -d / format -f", "input": string(in), "reference_ok": ref.FormatOK, "reference_output": string(ref.FormatOut)}, 6)
 	}
 	// --- format -d ---
@@ -161,11 +196,11 @@ func c16Format(c *Ctx, pool *Pool, i int, thorough bool) error {
 		}
 		o, err := c.sc.RunCLI(w)
 		if err != nil {
-			return err
+			return nil, err
 		}
 		c.ev.AddRecord(&o.Rec)
 		c.ev.Count("cli_worlds", 1)
-		c.event(fmt.Sprintf("c16fmt|%d|d", i), in, argv[:2], o.Exit, o.Stdout, treeSig(o, ""), opSig(o), ref.FormatOK, ref.FormatOut)
+		c.event(fmt.Sprintf("c16fmt|%d%s|d", i, tag), in, argv[:2], o.Exit, o.Stdout, treeSig(o, ""), opSig(o), ref.FormatOK, ref.FormatOut)
 		if !o.TimedOut {
 			if v := checkFormatD(ref, o); v != nil {
 				c.candidate16Format(i, "format-d", v, in, w, nil)
@@ -186,18 +221,21 @@ func c16Format(c *Ctx, pool *Pool, i int, thorough bool) error {
 	w := &CLIWorld{Argv: []string{"format", flag, sh.rel}, Cwd: sh.cwd, Disk0: disk, Sched: s0()}
 	o, err := c.sc.RunCLI(w)
 	if err != nil {
-		return err
+		return nil, err
 	}
 	c.ev.AddRecord(&o.Rec)
 	c.ev.Count("cli_worlds", 1)
 	c.ev.Fire("disk0_shape_"+sh.name, 1)
-	c.event(fmt.Sprintf("c16fmt|%d|f", i), w.Argv, sh.name, o.Exit, o.Stdout, treeSig(o, ""), opSig(o))
+	c.event(fmt.Sprintf("c16fmt|%d%s|f", i, tag), w.Argv, sh.name, o.Exit, o.Stdout, treeSig(o, ""), opSig(o))
 	if !o.TimedOut {
 		if v := checkFormatF(ref, o, sh); v != nil {
 			c.candidate16Format(i, "format-f", v, in, w, &sh)
 		}
 	}
-	return nil
+	if ref.FormatOK {
+		return ref.FormatOut, nil
+	}
+	return nil, nil
 }
 
 type c16Viol struct {
@@ -629,9 +667,25 @@ type compileCase struct {
 	long    bool
 	sub     bool
 	abs     bool
-	dirs    map[string]string // target -> sandbox-relative output dir
+	dirs    map[string]string // target -> sandbox-relative, clean output dir ("." = the sandbox root)
+	spell   map[string]string // target -> how the directory is spelled on the command line (default: as in dirs)
 	stale   bool
 	nested  bool
+}
+
+func (cc *compileCase) spelled(t string) string {
+	if s, ok := cc.spell[t]; ok {
+		return s
+	}
+	return cc.dirs[t]
+}
+
+// under joins a sandbox-relative directory and a file name.
+func under(dir, name string) string {
+	if dir == "." || dir == "" {
+		return name
+	}
+	return dir + "/" + name
 }
 
 func (cc *compileCase) argv() []string {
@@ -650,9 +704,9 @@ func (cc *compileCase) argv() []string {
 	}
 	for _, t := range cc.targets {
 		if cc.long {
-			argv = append(argv, TargetFlagLong[t], pre+cc.dirs[t])
+			argv = append(argv, TargetFlagLong[t], pre+cc.spelled(t))
 		} else {
-			argv = append(argv, TargetFlagShort[t], pre+cc.dirs[t])
+			argv = append(argv, TargetFlagShort[t], pre+cc.spelled(t))
 		}
 	}
 	return argv
@@ -716,7 +770,7 @@ func c16Compile(c *Ctx, pool *Pool, i int, thorough bool) error {
 			c.ev.Count("compile_invocations_skipped_generator_panics", 1)
 			continue
 		}
-		cc := &compileCase{targets: ts, long: r.Chance(1, 2), sub: r.Chance(1, 2), abs: r.Chance(1, 3), dirs: map[string]string{}, stale: r.Chance(1, 2), nested: r.Chance(1, 3)}
+		cc := &compileCase{targets: ts, long: r.Chance(1, 2), sub: r.Chance(1, 2), abs: r.Chance(1, 3), dirs: map[string]string{}, spell: map[string]string{}, stale: r.Chance(1, 2), nested: r.Chance(1, 3)}
 		// flat layout: some or all targets share one output directory (file
 		// names of different languages do not collide, the union must appear)
 		shared := len(ts) >= 2 && r.Chance(1, 4)
@@ -729,12 +783,40 @@ func c16Compile(c *Ctx, pool *Pool, i int, thorough bool) error {
 			if cc.nested {
 				d = "gen/" + d + "/v1"
 			}
+			// directory names that look like subcommands, and spellings that
+			// filepath.Clean would alter (trailing slash, ./, doubled slash, ".")
+			if !shared && !cc.nested && r.Chance(1, 8) {
+				d = r.Pick([]string{"format", "compile", "help", "completion"})
+			}
 			cc.dirs[t] = d
+			switch r.Intn(10) {
+			case 0:
+				cc.spell[t] = d + "/"
+			case 1:
+				cc.spell[t] = "./" + d
+			case 2:
+				cc.spell[t] = strings.Replace(d, "/", "//", 1)
+			case 3:
+				if len(ts) == 1 && !cc.abs {
+					cc.dirs[t], cc.spell[t] = ".", "."
+				}
+			}
+		}
+		if len(cc.spell) > 0 {
+			c.ev.Fire("argv_unclean_dir_spelling", 1)
 		}
 		if shared {
 			c.ev.Fire("disk0_shared_output_dir", 1)
 		}
-		disk := []DiskEntry{{Path: "in.dsl", Kind: "file", Data: []byte(text)}}
+		// timestamps: the DSL may be older or newer than what is already in the output directories
+		dslAge, staleAge := 0, 0
+		switch r.Intn(3) {
+		case 0:
+			dslAge = 3600
+		case 1:
+			staleAge = 7200
+		}
+		disk := []DiskEntry{{Path: "in.dsl", Kind: "file", Data: []byte(text), AgeSec: dslAge}}
 		disk = append(disk, unrelated...)
 		if cc.stale {
 			c.ev.Fire("disk0_stale_files", 1)
@@ -742,14 +824,16 @@ func c16Compile(c *Ctx, pool *Pool, i int, thorough bool) error {
 				cf := cleanFiles(&st)
 				for _, n := range sortedFileNames(cf) {
 					f := cf[n]
-					disk = append(disk, DiskEntry{Path: cc.dirs[st.Target] + "/" + n, Kind: "file", Data: append(append([]byte("STALE STALE STALE\n"), f.Data...), []byte("\ntrailing stale bytes that must disappear\n")...)})
+					disk = append(disk, DiskEntry{Path: under(cc.dirs[st.Target], n), Kind: "file", AgeSec: staleAge, Data: append(append([]byte("STALE STALE STALE\n"), f.Data...), []byte("\ntrailing stale bytes that must disappear\n")...)})
 				}
-				disk = append(disk, DiskEntry{Path: cc.dirs[st.Target] + "/unrelated_old_file.txt", Kind: "file", Data: []byte("old\n")})
+				disk = append(disk, DiskEntry{Path: under(cc.dirs[st.Target], "unrelated_old_file.txt"), Kind: "file", Data: []byte("old\n")})
 			}
 		} else if r.Chance(1, 2) {
 			c.ev.Fire("disk0_existing_dirs", 1)
 			for _, t := range ts {
-				disk = append(disk, DiskEntry{Path: cc.dirs[t], Kind: "dir"})
+				if cc.dirs[t] != "." {
+					disk = append(disk, DiskEntry{Path: cc.dirs[t], Kind: "dir"})
+				}
 			}
 		} else {
 			c.ev.Fire("disk0_missing_dirs", 1)
@@ -818,7 +902,7 @@ func checkCompile(ref *Resp, o *CLIOutcome, cc *compileCase) *c16Viol {
 	expected := map[string]FileOut{} // sandbox-relative path -> content
 	for _, st := range ref.Steps {
 		for n, f := range cleanFiles(&st) {
-			expected[cc.dirs[st.Target]+"/"+n] = f // later targets overwrite earlier ones in a shared dir, as the CLI does
+			expected[under(cc.dirs[st.Target], n)] = f // later targets overwrite earlier ones in a shared dir, as the CLI does
 		}
 	}
 	for _, p := range sortedFileNames(expected) {
@@ -834,6 +918,18 @@ func checkCompile(ref *Resp, o *CLIOutcome, cc *compileCase) *c16Viol {
 	cr, mo, rm := o.changed()
 	allowedDir := func(p string) bool {
 		for _, d := range cc.dirs {
+			if d == "." {
+				// the sandbox root itself was requested: directories the generators' files need
+				if p == "." {
+					return true
+				}
+				for e := range expected {
+					if strings.HasPrefix(e, p+"/") {
+						return true
+					}
+				}
+				continue
+			}
 			if d == p || strings.HasPrefix(d, p+"/") || strings.HasPrefix(p, d+"/") {
 				return true
 			}
@@ -879,6 +975,10 @@ func checkCompile(ref *Resp, o *CLIOutcome, cc *compileCase) *c16Viol {
 func targetOfPath(cc *compileCase, p string) string {
 	best := ""
 	for t, d := range cc.dirs {
+		if d == "." && best == "" {
+			best = t
+			continue
+		}
 		if strings.HasPrefix(p, d+"/") && len(d) > len(cc.dirs[best]) {
 			best = t
 		}
